@@ -523,3 +523,206 @@ class _FuncState:
             for child in ast.iter_child_nodes(s):
                 if isinstance(child, ast.stmt):
                     self.stmt(child)
+
+
+# =====================================================================================
+# ownership: what a clone shares with its template vs what the sweep mutates in place
+# =====================================================================================
+FRESH_CALLS = {'deepcopy', 'clone', 'zeros', 'ones', 'array', 'empty', 'copy_tree'}
+
+
+class Ownership:
+    def __init__(self, root):
+        self.reg = Registry(root)
+
+    def _mro(self, cls):
+        out, todo = [], [cls]
+        while todo:
+            c = todo.pop(0)
+            if c in out or c not in self.reg.classes:
+                continue
+            out.append(c)
+            todo.extend(b for b in self.reg.bases.get(c, []) if b)
+        return out
+
+    def _method(self, cls, name):
+        q = self.reg.method(cls, name)
+        return self.reg.funcs[q][2] if q else None
+
+    def universe(self, cls):
+        """attribute names assigned on self anywhere in the class hierarchy"""
+        attrs = {}
+        for c in self._mro(cls):
+            for mname, q in self.reg.classes[c].items():
+                node = self.reg.funcs[q][2]
+                for n in ast.walk(node):
+                    targets = []
+                    if isinstance(n, ast.Assign):
+                        targets = n.targets
+                    elif isinstance(n, (ast.AugAssign, ast.AnnAssign)):
+                        targets = [n.target]
+                    for tg in targets:
+                        if isinstance(tg, ast.Attribute) and isinstance(tg.value, ast.Name) and tg.value.id == 'self':
+                            attrs.setdefault(tg.attr, []).append((q, getattr(n, 'value', None)))
+                    # setattr(self, k, ...) with keys of a dict built in a module function
+                    if isinstance(n, ast.Call) and isinstance(n.func, ast.Name) and n.func.id == 'setattr':
+                        attrs.setdefault('<setattr>', []).append((q, None))
+        return attrs
+
+    @staticmethod
+    def _is_fresh_value(v):
+        if v is None:
+            return False
+        if isinstance(v, (ast.Constant, ast.List, ast.Dict, ast.Tuple, ast.BinOp, ast.ListComp, ast.DictComp,
+                          ast.Compare, ast.BoolOp, ast.UnaryOp, ast.IfExp)):
+            return True
+        if isinstance(v, ast.Call):
+            f = v.func
+            nm = f.attr if isinstance(f, ast.Attribute) else (f.id if isinstance(f, ast.Name) else '')
+            return True if nm else False     # any call builds / returns a value of its own (constructors, clone, deepcopy)
+        return False
+
+    def assigned_by(self, cls, mname, seen=None):
+        """attributes (first level) assigned with a fresh value by method mname, transitively through self.m() calls"""
+        seen = seen or set()
+        if (cls, mname) in seen:
+            return set()
+        seen.add((cls, mname))
+        node = self._method(cls, mname)
+        if node is None:
+            return set()
+        out = set()
+        for n in ast.walk(node):
+            if isinstance(n, ast.Assign):
+                for tg in n.targets:
+                    tgs = tg.elts if isinstance(tg, ast.Tuple) else [tg]
+                    for t in tgs:
+                        if isinstance(t, ast.Attribute) and isinstance(t.value, ast.Name) and t.value.id == 'self' \
+                                and (self._is_fresh_value(n.value) or isinstance(tg, ast.Tuple)):
+                            out.add(t.attr)
+            if isinstance(n, ast.Call) and isinstance(n.func, ast.Attribute) and isinstance(n.func.value, ast.Name) \
+                    and n.func.value.id == 'self':
+                out |= self.assigned_by(cls, n.func.attr, seen)
+        return out
+
+    def clone_shared(self, cls, mname='clone'):
+        """(shared attribute names, fresh attribute names) of cls.clone(): attributes of the
+        shallow copy that still reference the template's objects"""
+        node = self._method(cls, mname)
+        if node is None:
+            return None, None
+        var = None
+        for n in ast.walk(node):
+            if isinstance(n, ast.Assign) and isinstance(n.value, ast.Call) and isinstance(n.value.func, ast.Attribute) \
+                    and n.value.func.attr == 'copy' and len(n.targets) == 1 and isinstance(n.targets[0], ast.Name):
+                var = n.targets[0].id
+        if var is None:
+            return None, None
+        fresh = set()
+        for n in ast.walk(node):
+            if isinstance(n, ast.Assign):
+                for tg in n.targets:
+                    if isinstance(tg, ast.Attribute) and isinstance(tg.value, ast.Name) and tg.value.id == var:
+                        v = n.value
+                        aliases_self = isinstance(v, ast.Attribute) and isinstance(v.value, ast.Name) and v.value.id == 'self'
+                        if not aliases_self:
+                            fresh.add(tg.attr)
+            if isinstance(n, ast.Call) and isinstance(n.func, ast.Attribute) and isinstance(n.func.value, ast.Name) \
+                    and n.func.value.id == var:
+                fresh |= self.assigned_by(cls, n.func.attr)
+            # setattr(clone, attr, deepcopy(...)) in a loop over literal names
+            if isinstance(n, ast.For) and isinstance(n.iter, (ast.List, ast.Tuple)):
+                names = [e.value for e in n.iter.elts if isinstance(e, ast.Constant)]
+                for sub in ast.walk(n):
+                    if isinstance(sub, ast.Call) and isinstance(sub.func, ast.Name) and sub.func.id == 'setattr' \
+                            and sub.args and isinstance(sub.args[0], ast.Name) and sub.args[0].id == var:
+                        fresh |= set(names)
+        uni = set(self.universe(cls)) - {'<setattr>'}
+        return uni - fresh, fresh
+
+    def _mutating_methods(self):
+        """method names (any class) that assign attributes of their own object"""
+        out = {}
+        for q, (mod, cls, node) in self.reg.funcs.items():
+            if cls is None:
+                continue
+            for n in ast.walk(node):
+                tg = None
+                if isinstance(n, ast.Assign):
+                    tg = n.targets[0]
+                elif isinstance(n, ast.AugAssign):
+                    tg = n.target
+                base = tg
+                while isinstance(base, (ast.Attribute, ast.Subscript)):
+                    base = base.value
+                if tg is not None and isinstance(base, ast.Name) and base.id == 'self' and tg is not base:
+                    out.setdefault(node.name, set()).add(cls)
+                if isinstance(n, ast.Call) and isinstance(n.func, ast.Name) and n.func.id == 'setattr':
+                    out.setdefault(node.name, set()).add(cls)
+        return out
+
+    def mutated_in_place(self, cls, entry_methods):
+        """first-level attributes of self whose OBJECT is modified in place by the methods reachable
+        from entry_methods (through self.m() calls)"""
+        mut_methods = self._mutating_methods()
+        array_like = set()
+        for a, sites in self.universe(cls).items():
+            for q, v in sites:
+                if isinstance(v, ast.Call) and isinstance(v.func, ast.Attribute) and v.func.attr in (
+                        'zeros', 'ones', 'array', 'empty', 'zeros_like', 'ones_like'):
+                    array_like.add(a)
+                if isinstance(v, (ast.List, ast.Dict)):
+                    array_like.add(a)
+        seen, todo, M = set(), list(entry_methods), {}
+        while todo:
+            m = todo.pop()
+            if m in seen:
+                continue
+            seen.add(m)
+            node = self._method(cls, m)
+            if node is None:
+                continue
+            for n in ast.walk(node):
+                if isinstance(n, ast.Attribute) and isinstance(n.value, ast.Name) and n.value.id == 'self' \
+                        and isinstance(n.ctx, ast.Load):
+                    pass
+                tg = None
+                if isinstance(n, ast.Assign):
+                    for t in n.targets:
+                        self._note_store(t, M, m, depth_min=2)
+                elif isinstance(n, ast.AugAssign):
+                    self._note_store(n.target, M, m, depth_min=2)
+                    t = n.target
+                    if isinstance(t, ast.Attribute) and isinstance(t.value, ast.Name) and t.value.id == 'self' \
+                            and t.attr in array_like:
+                        M.setdefault(t.attr, []).append(f'{m}: {ast.unparse(n)[:70]}')
+                if isinstance(n, ast.Call) and isinstance(n.func, ast.Attribute):
+                    recv = n.func.value
+                    if isinstance(recv, ast.Name) and recv.id == 'self':
+                        todo.append(n.func.attr)
+                        continue
+                    base = recv
+                    chain = []
+                    while isinstance(base, (ast.Attribute, ast.Subscript)):
+                        chain.append(base)
+                        base = base.value
+                    if isinstance(base, ast.Name) and base.id == 'self' and chain:
+                        first = chain[-1]
+                        attr = first.attr if isinstance(first, ast.Attribute) else None
+                        if attr is None:
+                            continue
+                        if n.func.attr in MUTATORS or n.func.attr in mut_methods:
+                            M.setdefault(attr, []).append(f'{m}: {ast.unparse(n)[:70]}')
+            # properties used by the sweep
+        return M
+
+    @staticmethod
+    def _note_store(t, M, m, depth_min):
+        base, depth = t, 0
+        first = None
+        while isinstance(base, (ast.Attribute, ast.Subscript)):
+            first = base
+            base = base.value
+            depth += 1
+        if isinstance(base, ast.Name) and base.id == 'self' and depth >= depth_min and isinstance(first, ast.Attribute):
+            M.setdefault(first.attr, []).append(f'{m}: {ast.unparse(t)[:70]} = ...')
